@@ -40,7 +40,7 @@ func genC19(rt *rapid.T) CaseC19 {
 	}
 	n := rapid.IntRange(2, 10).Draw(rt, "nsteps")
 	for i := 0; i < n; i++ {
-		st := StepC19{Kind: rapid.SampledFrom([]string{"local", "remote", "remote", "rmerge", "merge", "merge", "reopen", "snapshot"}).Draw(rt, "kind")}
+		st := StepC19{Kind: rapid.SampledFrom([]string{"local", "local", "remote", "remote", "remote", "rmerge", "rmerge", "merge", "merge", "merge", "reopen", "reopen", "snapshot", "snapshot", "failwrite"}).Draw(rt, "kind")}
 		switch st.Kind {
 		case "local":
 			st.N = rapid.IntRange(1, 6).Draw(rt, "n")
@@ -204,6 +204,31 @@ func execC19(c CaseC19) *Outcome {
 			if err := write(0, st.N); err != nil {
 				return fail("step %d: %v", i, err)
 			}
+		case "failwrite":
+			// a local write whose head cannot be written to storage (I/O error): the call reports the error, the
+			// entry is in the log all the same, and the status must describe that log once at rest; the next
+			// write succeeds (and covers the entry)
+			s0 := cl.Stores[0]
+			before := hashSetOf(s0)
+			cl.W.Peers[0].Disk.FailPuts("_localHeads", 1)
+			op, err := writeAny(ctx, s0, c.Type, cnt%3, 4, cnt)
+			cnt++
+			if err == nil {
+				return fail("step %d: harness: the injected storage fault did not make the write fail", i)
+			}
+			if s0.OpLog().Len() > len(before) {
+				if err := tr.noteWrites(s0, 0, before, []model.Op{op}); err != nil {
+					return fail("harness: %v", err)
+				}
+			}
+			ss.sample("after failed local write")
+			if out := atRest(fmt.Sprintf("after step %d (a local write whose head write failed)", i)); out != nil {
+				return out
+			}
+			if err := write(0, 1); err != nil {
+				return fail("step %d: the write after a failed one failed too: %v", i, err)
+			}
+			o.Labels = append(o.Labels, "head-write-failed")
 		case "remote":
 			if err := write(1+(st.W-1)%c.Others, st.N); err != nil {
 				return fail("step %d: %v", i, err)
